@@ -155,6 +155,50 @@ CLAIMED = {
          "Trusted: TLC, strace injection, the LD_PRELOAD shim for short counts. Durability is fsync ordering, not power loss; stdin input, "
          "poll/EAGAIN and --files0 are not driven.",
          "§4 C17"),
+ "C03": ("TLA+ operational model of the .xz decoder at field level (XzStreamDec.tla over Lzma2.tla / Lz.tla) checked by TLC against a "
+         "declarative validity + meaning definition written from the format document (XzFormat.tla); TLC-generated abstract files "
+         "(valid incl. features the encoder never emits, and one-rule violations) serialised by the independent glue and replayed into "
+         "the real decoders",
+         "TLC checks AcceptIffValid / MeaningExact (+6 invariants) over abstract files (6 check classes, sizes present/absent x true/false, "
+         "header padding, 1-4 filter chains, empty Blocks, 2 Streams, ~45 single-rule violations, all 32 flag sets: 55k / 7.5M states), "
+         "the LZMA2 control-byte machine against L2Valid for all chunk sequences <= 4-5, and the circular LZ window against the "
+         "infinite-history definition (374k / 12.2M states); broken copies violate. 4.5k / 49.6k plans are replayed through "
+         "lzma_stream_decoder (one-shot, bytewise), lzma_stream_buffer_decode, lzma_stream_decoder_mt, lzma_block_decoder, "
+         "lzma_raw_decoder; all tests/files/*.xz are decoded and compared (verdict AND bytes) with glue and, lifted field by field, "
+         "with the TLA+ model.",
+         "Trusted: TLC, harness/glue (closure-tested both ways). Inside .xz files LZMA2 variety comes from a 14-entry catalogue; IA64 / "
+         "RISC-V filters appear only in the chain rules.",
+         "§4 C03"),
+ "C05": ("The decoder models of C03 composed with a fault chosen in Init (XzFault.tla, LzFault.tla: flip / CRC-fixed overwrite / insert / "
+         "delete / truncate) checked by TLC for 'never success with different data'; every bit, offset and truncation length of the "
+         "designated fields replayed against the real decoders and tools",
+         "TLC checks NeverWrongSuccess, DamageOutsidePayloadDetected, TruncatedNeverComplete over field x fault kind for <= 2 Streams x "
+         "<= 2 Blocks and for .lz/.lzma (5 + 3 broken copies violate; named exclusions: unverifiable check, cut at a Stream boundary, "
+         "benign CRC-consistent rewrites, .lz loose trailing data). 43k / 379k concrete damaged files (every bit, byte inserted/deleted "
+         "at every offset, every truncation, random multi-byte damage) through buffer_decode, lzma_code, mt, lzip, alone, auto decoders "
+         "+ 3.3k / 11.5k runs of xz -dc, xzdec, lzmadec: the observed (status, same data?) must be in the model's admissible set.",
+         "Trusted: TLC, harness/glue (classifies payload damage). .lzma has no integrity check: flips are only checked against broad sets.",
+         "§4 C05"),
+ "C06": ("TLA+ model of the resumable-coder calling convention (SliceCoder.tla / Slicing.tla composed with LzmaCode.tla) checked by TLC "
+         "for slice independence over every split; TLC-generated slicing plans mapped onto real field maps and replayed on all coders; "
+         "recorded runs validated by TraceSlicing",
+         "TLC checks SliceIndependent (terminal <<output, status, total_in>> = one-shot observation; BCJ-rejected exception), TotalsAgree, "
+         "NoInternal for .xz-like, LZMA1 (incl. the recomputed eopm locals), .lz and BCJ field coders under all Feed/OutSpace "
+         "interleavings (25k-97k states each); the released-5.8.1 variant and a strict-BCJ variant must (and do) yield counterexamples. "
+         "2040 TLC plans (windows at field boundaries -1/0/+1, empty calls, 5 output modes) + every two-piece split, 1-byte in/out, "
+         "random lists on 17 decoders and 7 encoders over valid, damaged, truncated inputs: 20k / 390k runs compared with one-shot; "
+         "determinism groups (threads 1..8 x timeout x slicing x filter text form) must give equal digests.",
+         "Trusted: TLC, harness/glue for inputs. Four by-design total_in dependencies are listed as known findings.",
+         "§4 C06"),
+ "C04": ("Starvation / documented-codes model (Starve.tla over Slicing) checked by TLC incl. a liveness property; TLC-enumerated field "
+         "grammars for the stateless parsers; all executions observed under ASan+UBSan with exact heap windows, watchdog and allocator ledger",
+         "Decided by the spec: every entry point returns only documented codes (no 101/102) and a caller that stops supplying input or "
+         "output gets BUF_ERROR after a bounded number of calls (StarveLive under weak fairness; a lazy variant violates it); recorded "
+         "traces end with starving calls and are validated. Observed (not proved): 6.7k / 343k decoder runs and 3.5k+ parser calls from "
+         "TLC-enumerated grammars (VLIs of 1..10 bytes, reserved bits, property sizes, filter strings) x memory limits x slicings run "
+         "under ASan+UBSan with asserts, exact-size heap windows, a watchdog and a counting allocator (leaks).",
+         "Memory safety is OBSERVED on specification-generated inputs, not proved: no coverage-guided fuzzing is done (DESIGN 5).",
+         "§4 C04"),
 }
 NA_REASON = "check not built yet in this round (planned: see DESIGN.md §4); no claim is made"
 READY_FILE = os.path.join(V, "lib", "ready.txt")   # ids whose checks have been integrated (green + mutants confirmed)
